@@ -559,9 +559,359 @@ Definition c16_run2 (case obs : sx) : verdict :=
   | _ => BadCase
   end.
 
+(* ==== threshold streams: glue for cases that cross the scale / history thresholds of the Go code.
+   Pure glue: every sub-model below decodes a richer case text and then runs the SAME model functions
+   (lrun / prun / allow) and the SAME predicates (c16_pred0 / c16_pred1 / s_run) as which = 0 and 1.    *)
+
+(* which = 3  one limiter, run-length encoded history (tens of thousands of ops, hundreds of buckets).
+     case = (count interval kind limit deflimit (share ...) (seg ...)),
+     seg  = (reps now ts size dv step): reps copies of the op, the i-th with now + i*step, ts + i*step
+     obs  = (((bit n) ...) final): the decisions as maximal runs; final as for which = 0                 *)
+Fixpoint expand_seg (k : nat) (n t z d step : Z) : list op :=
+  match k with
+  | O => []
+  | S k' => {| o_now := n; o_ts := t; o_size := z; o_dv := dv_of d |} :: expand_seg k' (n + step) (t + step) z d step
+  end.
+Definition seg_of_sx (s : sx) : option (list op) :=
+  match s with
+  | SL [SZ reps; SZ n; SZ t; SZ z; SZ d; SZ step] =>
+      if (0 <=? reps) && (reps <=? 200000) then Some (expand_seg (Z.to_nat reps) n t z d step) else None
+  | _ => None
+  end.
+Definition case3 (s : sx) : option (cfg * list op) :=
+  match s with
+  | SL [SZ cnt; SZ itv; SZ kd; SZ lm; SZ dl; shs; segs] =>
+      match as_list as_Z shs, as_list seg_of_sx segs with
+      | Some sh, Some oss =>
+          let os := concat oss in
+          let c := {| count := cnt; interval := itv; size_kind := negb (kd =? 0); limit := lm;
+                      deflimit := dl; shares := sh |} in
+          if (0 <=? cnt) && (1 <=? itv) && forallb (dv_ok c) os then Some (c, os) else None
+      | _, _ => None
+      end
+  | _ => None
+  end.
+Definition run_of_sx (s : sx) : option (list bool) :=
+  match s with
+  | SL [b; SZ n] =>
+      match as_bool b with
+      | Some v => if (1 <=? n) && (n <=? 200000) then Some (repeat v (Z.to_nat n)) else None
+      | None => None
+      end
+  | _ => None
+  end.
+(* the plain form of a run-length observable *)
+Definition unrle_obs (obs : sx) : option sx :=
+  match obs with
+  | SL [runs; fin] =>
+      match as_list run_of_sx runs with
+      | Some rs => Some (SL [SL (map of_bool (concat rs)); fin])
+      | None => None
+      end
+  | _ => None
+  end.
+Definition c16_run3 (case obs : sx) : verdict :=
+  match case3 case, unrle_obs obs with
+  | Some (c, ops), Some obs' => verdict_of (sx_of_run (lrun c (lim0 c) ops)) obs' (c16_pred0 c ops obs')
+  | _, _ => BadCase
+  end.
+
+(* which = 4  several Plugin instances of ONE pipeline (one shared limiters map), driven in sequence.
+     case  = (ninst count interval (rule ...) (event ...)),  event = (inst now tsspec size ((field value) ...))
+     tsspec = ns                  the time field is Format(ns)
+            | (sec nsec)          the time field is Format(Unix(sec, nsec)), years 1..9999: Time.UnixNano()
+                                  wraps in int64; 0001-01-01T00:00:00Z is the zero Time -> time.Now()
+            | #raw                an unparseable time field -> time.Now()
+     Instance 0 owns the injected clock: the clock is what the last instance-0 event set, so an event of
+     another instance must carry that same now (checked here).  time.Now() is the REAL clock, which is
+     after every injected clock the harness uses (now < 1.5e18 ns, interval <= 1e17 ns checked here):
+     such an event is timed in the future of the window.
+     The MODEL sees the int64 the code computes; the PREDICATE sees the true event time.               *)
+Definition wrap64 (z : Z) : Z := let m := z mod 2 ^ 64 in if m <? 2 ^ 63 then m else m - 2 ^ 64.
+Definition ZERO_SEC : Z := -62135596800.
+Definition FAR : Z := 2 ^ 62.
+Inductive tsspec := TsNs (t : Z) | TsSec (sec nsec : Z) | TsNow.
+Definition tsspec_of_sx (s : sx) : option tsspec :=
+  match s with
+  | SZ t => Some (TsNs t)
+  | SL [SZ sec; SZ nsec] =>
+      if (0 <=? nsec) && (nsec <? 10 ^ 9) && (ZERO_SEC <=? sec) && (sec <=? 253402300799)
+      then (if (sec =? ZERO_SEC) && (nsec =? 0) then Some TsNow else Some (TsSec sec nsec)) else None
+  | SB _ => Some TsNow
+  | _ => None
+  end.
+Definition ts_code (t : tsspec) : Z :=
+  (* bucketsMeta.timeToBucketID saturates an instant that Time.UnixNano cannot represent (repair of C16-unixnano-wrap) *)
+  match t with TsNs t => t | TsSec s n => Z.max (- 2 ^ 63) (Z.min (2 ^ 63 - 1) (s * 10 ^ 9 + n)) | TsNow => FAR end.
+Definition ts_true (t : tsspec) : Z :=
+  match t with TsNs t => t | TsSec s n => s * 10 ^ 9 + n | TsNow => FAR end.
+Record mev := { m_inst : Z; m_now : Z; m_ts : tsspec; m_size : Z; m_fields : fields }.
+Definition mev_of_sx (s : sx) : option mev :=
+  match s with
+  | SL [SZ i; SZ n; t; SZ z; fs] =>
+      match tsspec_of_sx t, as_list kv_of_sx fs with
+      | Some ts, Some f => Some {| m_inst := i; m_now := n; m_ts := ts; m_size := z; m_fields := f |}
+      | _, _ => None
+      end
+  | _ => None
+  end.
+(* clock discipline of the harness (see above) *)
+Fixpoint mevs_ok (ninst itv : Z) (clock : option Z) (es : list mev) : bool :=
+  match es with
+  | [] => true
+  | e :: r =>
+      (0 <=? m_inst e) && (m_inst e <? ninst) &&
+      (match m_ts e with TsNow => (m_now e <? 1500000000000000000) && (itv <=? 100000000000000000) | _ => true end) &&
+      (if m_inst e =? 0
+       then (match m_ts e with TsNs _ => true | _ => false end) && mevs_ok ninst itv (Some (m_now e)) r
+       else (match clock with Some c => m_now e =? c | None => false end) && mevs_ok ninst itv clock r)
+  end.
+Definition pev_code (e : mev) : pev := {| e_now := m_now e; e_ts := ts_code (m_ts e); e_size := m_size e; e_fields := m_fields e |}.
+Definition pev_true (e : mev) : pev := {| e_now := m_now e; e_ts := ts_true (m_ts e); e_size := m_size e; e_fields := m_fields e |}.
+Definition case4 (s : sx) : option (pcfg * list mev) :=
+  match s with
+  | SL [SZ ninst; SZ cnt; SZ itv; rs; es] =>
+      match as_list rule_of_sx rs, as_list mev_of_sx es with
+      | Some rules, Some evs =>
+          if (1 <=? ninst) && (ninst <=? 16) && (0 <=? cnt) && (1 <=? itv) && mevs_ok ninst itv None evs
+          then Some ({| p_count := cnt; p_interval := itv; p_rules := rules |}, evs) else None
+      | _, _ => None
+      end
+  | _ => None
+  end.
+Definition c16_run4 (case obs : sx) : verdict :=
+  match case4 case with
+  | None => BadCase
+  | Some (p, es) =>
+      verdict_of (sx_of_prun (prun p [] (map pev_code es))) obs (c16_pred1 p (map pev_true es) obs)
+  end.
+
+(* which = 5  several Plugin instances of one pipeline driven CONCURRENTLY (one goroutine each, after the
+   events of instance 0).  Count kind only, one instant (now = ts), so that the number of passes of a key
+   does not depend on the interleaving: per key it must be that of the reference semantics on the key's
+   events in any order.
+     case = (count interval (rule ...) now (((size ((field value) ...)) ...) ...))   one event list per instance
+     obs  = (((decision ...) ...) final)                                              one decision list per instance *)
+Definition cev_of_sx (now : Z) (s : sx) : option pev :=
+  match s with
+  | SL [SZ z; fs] =>
+      match as_list kv_of_sx fs with
+      | Some f => Some {| e_now := now; e_ts := now; e_size := z; e_fields := f |}
+      | None => None
+      end
+  | _ => None
+  end.
+Definition case5 (s : sx) : option (pcfg * list (list pev)) :=
+  match s with
+  | SL [SZ cnt; SZ itv; rs; SZ now; ess] =>
+      match as_list rule_of_sx rs, as_list (as_list (cev_of_sx now)) ess with
+      | Some rules, Some evss =>
+          if (0 <=? cnt) && (1 <=? itv) && forallb (fun r => negb (r_size r)) rules &&
+             (2 <=? len evss) && (len evss <=? 16)
+          then Some ({| p_count := cnt; p_interval := itv; p_rules := rules |}, evss) else None
+      | _, _ => None
+      end
+  | _ => None
+  end.
+Definition ztrue (l : list bool) : Z := zcount (fun b => b) l.
+Fixpoint lens_eqb {A B} (a : list (list A)) (b : list (list B)) : bool :=
+  match a, b with
+  | [], [] => true
+  | x :: a', y :: b' => (length x =? length y)%nat && lens_eqb a' b'
+  | _, _ => false
+  end.
+(* (the key of every event is computed once; [pickm] selects by a mask) *)
+Fixpoint pickm {B} (mask : list bool) (ys : list B) : list B :=
+  match mask, ys with
+  | m :: mask', y :: ys' => if m then y :: pickm mask' ys' else pickm mask' ys'
+  | _, _ => []
+  end.
+Definition c16_pred5 (p : pcfg) (ess : list (list pev)) (dss : list (list bool)) : bool :=
+  let es := concat ess in
+  let ds := concat dss in
+  if (1 <=? p_count p) && (Z.of_nat (length (p_rules p)) <=? 256) && forallb (p_timed p) es then
+    let eks := map (ev_key p) es in
+    lens_eqb ess dss &&
+    forallb (fun k =>
+               let mask := map (fun ek => match ek with Some k' => bytes_eqb k' k | None => false end) eks in
+               match pickm mask es with
+               | (e :: _) as kes =>
+                   match ev_cfg p e with
+                   | Some c => ztrue (pickm mask ds) =? ztrue (snd (s_run c spec0 (map pev_op kes)))
+                   | None => true
+                   end
+               | [] => true
+               end) (keys_of p es) &&
+    forallb (fun b => b) (pickm (map (fun ek => match ek with None => true | Some _ => false end) eks) ds)
+  else true.
+Definition c16_run5 (case obs : sx) : verdict :=
+  match case5 case, obs with
+  | Some (p, ess), SL [dsx; fin] =>
+      match as_list (as_list as_bool) dsx with
+      | Some dss =>
+          let m := prun p [] (concat ess) in
+          let msx := sx_of_prun m in
+          if c16_pred5 p ess dss then
+            (if sx_eqb fin (sx_of_res (fun m => SL (map SB (sorted_keys m))) (snd m)) then Agree else Differ msx)
+          else Violates msx
+      | None => BadCase
+      end
+  | _, _ => BadCase
+  end.
+
+(* which = 6  limiter expiry (limitersMap.maintenance), REAL clock, one default rule of count kind, all events
+   inside one bucket (the harness re-runs a case during which the real clock crossed a bucket boundary).
+     case = (count interval limit exp_ms (item ...)),  item = (0 key) one event | (1 rounds gap_ms (key ...)) a pause
+   of rounds * gap_ms during which every listed (hot) key is hit once per round.  Timing model, valid for
+   exp_ms = 2500, gap_ms <= 500, rounds * gap_ms >= 4000 (checked here) and the 1 s maintenance ticker: a key
+   that is hit every gap_ms is never dropped; a key idle for a whole pause is dropped (its next event finds a
+   fresh limiter).  Only the first half is the property (a live limiter keeps its counters): the predicate
+   compares the keys that are hot in EVERY pause with the reference semantics over their whole history. *)
+Inductive xitem := XEv (k : bytes) | XPause (rounds : Z) (hot : list bytes).
+Definition xitem_of_sx (s : sx) : option xitem :=
+  match s with
+  | SL [SZ 0; SB k] => match k with [] => None | _ => Some (XEv k) end
+  | SL [SZ 1; SZ rounds; SZ gap; ks] =>
+      match as_list as_B ks with
+      | Some hot => if (1 <=? gap) && (gap <=? 500) && (4000 <=? rounds * gap) && (rounds <=? 1000)
+                       && forallb (fun k => match k with [] => false | _ => true end) hot
+                    then Some (XPause rounds hot) else None
+      | None => None
+      end
+  | _ => None
+  end.
+Definition case6 (s : sx) : option (pcfg * list xitem) :=
+  match s with
+  | SL [SZ cnt; SZ itv; SZ lm; SZ ex; its] =>
+      match as_list xitem_of_sx its with
+      | Some items =>
+          if (1 <=? cnt) && (1000000000 * 60 <=? itv) && (0 <=? lm) && (ex =? 2500)
+          then Some ({| p_count := cnt; p_interval := itv;
+                        p_rules := [{| r_conds := []; r_limit := lm; r_size := false |}] |}, items) else None
+      | None => None
+      end
+  | _ => None
+  end.
+Definition xev (p : pcfg) (k : bytes) : pev :=
+  let t := p_count p * p_interval p in {| e_now := t; e_ts := t; e_size := 1; e_fields := [(KEY, k)] |}.
+Fixpoint rounds_evs (p : pcfg) (n : nat) (hot : list bytes) : list pev :=
+  match n with O => [] | S n' => map (xev p) hot ++ rounds_evs p n' hot end.
+Definition xitem_evs (p : pcfg) (it : xitem) : list pev :=
+  match it with XEv k => [xev p k] | XPause r hot => rounds_evs p (Z.to_nat r) hot end.
+Definition mem_bytes (k : bytes) (l : list bytes) : bool := existsb (bytes_eqb k) l.
+Fixpoint xrun (p : pcfg) (m : lmap) (its : list xitem) : list bool * res lmap :=
+  match its with
+  | [] => ([], Ok m)
+  | it :: r =>
+      match prun p m (xitem_evs p it) with
+      | (bs, Ok m1) =>
+          let m2 := match it with
+                    | XEv _ => m1
+                    | XPause _ hot => filter (fun kl => mem_bytes (fst kl) (map (lim_key 0) hot)) m1
+                    end in
+          let '(bs', fin) := xrun p m2 r in (bs ++ bs', fin)
+      | (bs, bad) => (bs, bad)
+      end
+  end.
+Definition always_hot (its : list xitem) (k : bytes) : bool :=
+  forallb (fun it => match it with XEv _ => true | XPause _ hot => mem_bytes k hot end) its.
+Definition c16_pred6 (p : pcfg) (its : list xitem) (obs : sx) : bool :=
+  let es := concat (map (xitem_evs p) its) in
+  match as_list as_bool obs with
+  | Some ds =>
+      (length ds =? length es)%nat &&
+      forallb (fun k =>
+                 match k with
+                 | _ :: _ :: tk =>
+                     if always_hot its tk then
+                       match key_cfg p k es with
+                       | Some c => bools_eqb (pick (for_key p k) es ds)
+                                     (snd (s_run c spec0 (map pev_op (filter (for_key p k) es))))
+                       | None => true
+                       end
+                     else true
+                 | _ => true
+                 end) (keys_of p es)
+  | None => false
+  end.
+Definition c16_run6 (case obs : sx) : verdict :=
+  match case6 case with
+  | None => BadCase
+  | Some (p, its) => verdict_of (SL (map of_bool (fst (xrun p [] its)))) obs (c16_pred6 p its obs)
+  end.
+
+(* which = 7  the effective shares of a limit distribution with arbitrary ratios num/den (the harness measures
+   them on a started Plugin of size kind: the largest event a fresh key lets through per slot).
+     case = (total den (num ...))   obs = (0 (default share ...)) | (1 1) ratio out of range | (1 2) sum > 1
+   The code works in float64 (ratio = float64(num)/float64(den); share = Round(ratio * total); default ratio =
+   Round((1 - sum) * 100) / 100), so the check is relational: a share is A nearest integer of the exact
+   product, up to the float64 error of one multiplication (relative 2^-48, generous); the default ratio is any
+   whole percent nearest to 100 * (1 - sum) (a tie may fall either way); ratios that sum to exactly 1 may be
+   rejected (as for which = 2).                                                                          *)
+Definition near_share (total num den s : Z) : bool :=
+  2 ^ 48 * (2 * Z.abs (s * den - num * total) - den) <=? 2 * den * (total + 1).
+Fixpoint near_shares (total den : Z) (nums ss : list Z) : bool :=
+  match nums, ss with
+  | [], [] => true
+  | n :: nums', x :: ss' => near_share total n den x && near_shares total den nums' ss'
+  | _, _ => false
+  end.
+(* k is a whole percent nearest to 100 * rest / den *)
+Definition near_pct (rest den k : Z) : bool := 2 ^ 30 * (2 * Z.abs (k * den - 100 * rest) - den) <=? den.
+Definition def_share_ok (total rest den s : Z) : bool :=
+  existsb (fun k => near_pct rest den k && near_share total k 100 s) (map Z.of_nat (seq 0 101)).
+Definition c16_run7 (case obs : sx) : verdict :=
+  match case with
+  | SL [SZ total; SZ den; ns] =>
+      match as_list as_Z ns with
+      | Some nums =>
+          if (0 <=? total) && (total <? 2 ^ 61) && (1 <=? den) && (den <=? 2 ^ 40) then
+            let sum := sumZ nums in
+            let exact := SL [SZ 0; SL (map SZ (round_div (round_div (100 * (den - sum)) den * total) 100
+                                                :: map (fun n => round_div (n * total) den) nums))] in
+            if negb (forallb (fun n => (0 <=? n) && (n <=? den)) nums) then exact_verdict (SL [SZ 1; SZ 1]) obs
+            else if den <? sum then exact_verdict (SL [SZ 1; SZ 2]) obs
+            else match nums, obs with
+                 | [], _ => exact_verdict (SL [SZ 0; SL [SZ total]]) obs
+                 | _, SL [SZ 1; SZ 2] => if sum =? den then Agree else Violates exact
+                 | _, SL [SZ 0; ss] =>
+                     match as_list as_Z ss with
+                     | Some (d :: l) =>
+                         if near_shares total den nums l && def_share_ok total (den - sum) den d
+                         then Agree else Violates exact
+                     | _ => Violates exact
+                     end
+                 | _, _ => Violates exact
+                 end
+          else BadCase
+      | None => BadCase
+      end
+  | _ => BadCase
+  end.
+
+(* which = 8  as which = 7, and the shares must not add up to more than the limit they distribute (the title of
+   the property: never more than the limit per key and bucket).  The code violates this for ratios finer than a
+   percent (finding C16-default-share-rounding); the harness emits such cases only when the finding is listed. *)
+Definition c16_run8 (case obs : sx) : verdict :=
+  match case, obs with
+  | SL [SZ total; _; _], SL [SZ 0; ss] =>
+      match as_list as_Z ss with
+      | Some l => if sumZ l <=? total then c16_run7 case obs
+                  else match c16_run7 case obs with BadCase => BadCase | _ => Violates (SL [SZ 0; SL [SZ total]]) end
+      | None => c16_run7 case obs
+      end
+  | _, _ => c16_run7 case obs
+  end.
+
 Definition c16_entry (which : Z) (case obs : sx) : verdict :=
   match which with
   | 0 => c16_run0 case obs
   | 1 => c16_run1 case obs
+  | 3 => c16_run3 case obs
+  | 4 => c16_run4 case obs
+  | 5 => c16_run5 case obs
+  | 6 => c16_run6 case obs
+  | 7 => c16_run7 case obs
+  | 8 => c16_run8 case obs
   | _ => c16_run2 case obs
   end.
